@@ -4,6 +4,7 @@ import random
 import c08
 import memcommon as mcm
 import vlib
+import progcommon as pc
 import x86common as xc
 
 PROP = "C06"
@@ -30,6 +31,8 @@ def history_phase(rep, seed, wd, quick):
     nev, nsc, _ = mcm.validate(scs, wd, "hist", rep, 8 if quick else 14, keyfn=_mine)
     return nev, nsc
 
+PROG_OWNS = lambda c, cls, m: c.startswith("out-")
+
 
 def run(tier, seed):
     rep = vlib.Report(PROP, tier, seed, "model_checking")
@@ -47,12 +50,21 @@ def run(tier, seed):
                       f"Plus {hsc} shrink/regrow histories ({hev} events) with guest accesses inside/across/beyond the current end of a resized "
                       "area, judged by Memory.tla through Trace_Memory.")
         rep.cov["history_events_validated"] = hev
+        pc.phase(rep, tier, seed + 8600, wd, PROG_OWNS)
         return rep.finish()
     finally:
         vlib.cleanup(wd)
 
 
 def replay(path, seed):
+    import json as _j
+    _c = _j.load(open(path))["case"]
+    if _c.get("prog"):
+        _wd = vlib.workdir(PROP.lower() + "r")
+        try:
+            return pc.replay(vlib.Report(PROP, "quick", seed, "model_checking"), _c, _wd, PROG_OWNS)
+        finally:
+            vlib.cleanup(_wd)
     import json
     case = json.load(open(path))["case"]
     if "scenario" in case:
